@@ -759,7 +759,19 @@ class Merger:
         if self._is_criss_cross and getattr(
             self.merge_type, "supports_lca_trees", False
         ):
-            kwargs["lca_trees"] = self._lca_trees
+            # The LCA entry walk (Merge3Merger._entries_lca) identifies
+            # entries by file id. Path-based trees (git) have none: they get
+            # a plain three-way merge against the selected base instead.
+            if all(
+                getattr(tree, "supports_file_ids", False)
+                for tree in [
+                    self.this_tree,
+                    self.other_tree,
+                    self.base_tree,
+                    *self._lca_trees,
+                ]
+            ):
+                kwargs["lca_trees"] = self._lca_trees
         return self.merge_type(change_reporter=self.change_reporter, **kwargs)
 
     def _do_merge_to(self):
